@@ -49,7 +49,7 @@ KEYS = {
     "C01": {"session-read-corrupts-stream", "session-read-overrun", "session-write-count",
             "session-write-stream", "session-write-chunk-oversize", "session-live-error"},
     "C04": {"session-write-admitted-beyond-window", "session-write-blocked-changed-state",
-            "session-write-occupancy-bound"},
+            "session-write-occupancy-bound", "session-close-admits-beyond-window"},
 }
 
 WHAT = ("sess.go WriteBuffers/Read vs coq/sess/Sess.v write_full/read_full over the extracted ARQ model "
